@@ -29,6 +29,7 @@ var relevant = map[string]bool{
 	"received.Len": true, "received.isFull": true, "received.Close": true,
 	"executed.Has": true, "executed.Get": true, "executed.Delete": true, "executed.Put": true, "executed.NewBatch": true, "executed.Close": true,
 	"batch.Put": true, "batch.Write": true, "batch.Reset": true, "batch.ValueSize": true,
+	"lock.Lock": true, "lock.Unlock": true, "lock.RLock": true, "lock.RUnlock": true,
 	"evictedTxs.Add": true, "evictedTxs.Remove": true, "evictedTxs.Contains": true,
 	"add": true, "remove": true, "refreshGateNonce": true, "isTransactionExisted": true, "checkNonce": true, "findTxInList": true,
 	"GetExecuted": true, "growRing": true, "loop": true, "push": true,
